@@ -20,13 +20,20 @@ impl TryFrom<String> for BuildpackApi {
         // If no minor version is specified, it defaults to `0`.
         let (major, minor) = &value.split_once('.').unwrap_or((&value, "0"));
 
+        // Only plain ASCII digits are permitted, `u64::from_str` on its own would also accept a
+        // leading `+` sign.
+        let parse_component = |component: &str| {
+            component
+                .bytes()
+                .all(|b| b.is_ascii_digit())
+                .then(|| component.parse().ok())
+                .flatten()
+                .ok_or_else(|| Self::Error::InvalidBuildpackApi(value.clone()))
+        };
+
         Ok(Self {
-            major: major
-                .parse()
-                .map_err(|_| Self::Error::InvalidBuildpackApi(value.clone()))?,
-            minor: minor
-                .parse()
-                .map_err(|_| Self::Error::InvalidBuildpackApi(value.clone()))?,
+            major: parse_component(major)?,
+            minor: parse_component(minor)?,
         })
     }
 }
